@@ -59,12 +59,13 @@ PROPS["C03"] = dict(
 
 PROPS["C05"] = dict(
     inject=[
-        ("src/bigint.rs", "c05/bigint.rs"),
+        ("src/bigint.rs", "c05/bigint.rs"), ("src/biguint/power.rs", "c12/power.rs"),
     ],
-    kani=[dict(filter_q="c05_q_", filter_t=["c05_q_", "c05_t_"], jobs=14, timeout_q=200, timeout_t=900)],
+    kani=[dict(filter_q=["c05_q_", "c12_q_plain_modpow", "c12_q_modpow_"], filter_t=["c05_q_", "c05_t_", "c12_q_plain_modpow", "c12_t_plain_modpow", "c12_q_modpow_"], jobs=14, timeout_q=300, timeout_t=1200)],
     engines=[dict(module="mirsmt", func="run_monty")],
-    functions=["BigInt::modinv", "bigint::power::modpow"],
-    bounds_quick="BigInt modinv/modpow sign placement: 4 sign pairs x operand shapes up to 2 digits x result lengths 0..2; panics",
+    functions=["BigInt::modinv", "bigint::power::modpow", "biguint::power::modpow (parity dispatch, zero modulus)", "plain_modpow (schedule by exponent tally)",
+               "monty: add_ww, mul_add_www (MIR->SMT, full width), inv_mod_alt (MIR->SMT at digit widths 8 and 16)"],
+    bounds_quick="BigInt modinv/modpow sign placement: 4 sign pairs x operand shapes up to 2 digits x result lengths 0..2; panics; parity dispatch; plain_modpow schedule for all single-digit exponents < 2^6 (2^12 thorough); Montgomery word kernels from their MIR",
     outside="Montgomery CIOS values, final-subtraction count, multi-digit exponent schedules, extended Euclid beyond narrow values",
     trusted=STUBS_ADDSUB + ["contract stub: BigUint::modinv -> None | Some(x), x < |m| canonical, x = 0 only if |m| = 1",
                             "contract stub: BigUint::modpow -> canonical x < |m| (panics on zero modulus)"],
